@@ -176,3 +176,32 @@ Proof.
   destruct (mk_init n key tape) as [mk t']. cbn [fst snd] in *. split; [exact R|].
   pose proof (mk_rounds_keys n (length key) rounds Hn mk t' Sh) as K. rewrite R in K. exact K.
 Qed.
+
+Lemma mws_init_values n ws tape : map mw_value (fst (mws_init n ws tape)) = ws.
+Proof.
+  unfold mws_init. pose proof (deal_fst (n - 1) ws tape) as F.
+  destruct (deal (n - 1) ws tape) as [ps t']. cbn [fst] in *.
+  rewrite <- F. rewrite map_map. apply map_ext. intros [d rs]. apply mw_value_mask.
+Qed.
+Lemma mws_init_shape n ws tape : (1 <= n)%nat -> Forall (fun w => length w = n) (fst (mws_init n ws tape)).
+Proof.
+  intros Hn. unfold mws_init. pose proof (deal_snd_len (n - 1) ws tape) as F.
+  destruct (deal (n - 1) ws tape) as [ps t']. cbn [fst] in *.
+  rewrite Forall_map. eapply Forall_impl; [|exact F]. intros [d rs] L. cbn [fst snd] in *. unfold mw_mask. cbn [length]. lia.
+Qed.
+Lemma mws_rounds_values n rounds : (1 <= n)%nat -> forall mk tape, Forall (fun w => length w = n) mk ->
+  Forall (fun e => fst e = map mw_value mk) (mws_rounds n mk tape rounds).
+Proof.
+  intros Hn. induction rounds as [|r IH]; intros mk tape Sh; [constructor|]. cbn [mws_rounds].
+  pose proof (mk_randomize_values n mk tape Sh Hn) as V. pose proof (mk_randomize_shape n mk tape Sh Hn) as S'.
+  destruct (mk_randomize n mk tape) as [mk' t']. cbn [fst] in *.
+  constructor; [exact V|]. rewrite <- V. apply IH. exact S'.
+Qed.
+(* any list of words masked with n >= 1 shares from any tape and re-randomised any number of times keeps its values *)
+Theorem mws_history_values n ws tape rounds : (1 <= n)%nat ->
+  fst (mws_history n ws tape rounds) = ws /\ Forall (fun e => fst e = ws) (snd (mws_history n ws tape rounds)).
+Proof.
+  intros Hn. unfold mws_history. pose proof (mws_init_values n ws tape) as R. pose proof (mws_init_shape n ws tape Hn) as Sh.
+  destruct (mws_init n ws tape) as [mk t']. cbn [fst snd] in *. split; [exact R|].
+  pose proof (mws_rounds_values n rounds Hn mk t' Sh) as K. rewrite R in K. exact K.
+Qed.
